@@ -5,6 +5,7 @@ import QrlewModel.Model.Rules
 import QrlewModel.Generated.Rules
 import QrlewModel.Model.DpEvent
 import QrlewModel.Model.DpReduce
+import QrlewModel.Model.Print
 import QrlewModel.Model.Monotone
 import QrlewModel.Model.Injection
 import QrlewModel.Model.Filter
@@ -125,6 +126,25 @@ def runInjTime (c : Json) : Option Json := do
   let d2dt := days.map fun d => let s := dateToStamp d; Json.arr #[num s.day, num s.sec, num s.nano]
   let dt2d := stamps.map fun s => match stampToDate? s with | some d => num d | none => Json.str "refused"
   pure (Json.mkObj [("d2dt", Json.arr d2dt.toArray), ("dt2d", Json.arr dt2d.toArray)])
+
+/-- stream `exprprint`: the tokens `Qrlew.Print.print` writes for an expression tree -/
+partial def peOfJson? (j : Json) : Option Print.PE := do
+  let tag ← (j.getArrVal? 0).toOption >>= fun t => t.getStr?.toOption
+  let k ← (j.getArrVal? 1).toOption >>= jInt?
+  match tag with
+  | "atom" => pure (.atom k.toNat)
+  | "bin" => do pure (.bin k.toNat (← (j.getArrVal? 2).toOption >>= peOfJson?) (← (j.getArrVal? 3).toOption >>= peOfJson?))
+  | "pre" => do pure (.pre k.toNat (← (j.getArrVal? 2).toOption >>= peOfJson?))
+  | "suf" => do pure (.suf k.toNat (← (j.getArrVal? 2).toOption >>= peOfJson?))
+  | _ => none
+
+def tokStr : Print.Tok → String
+  | .lp => "(" | .rp => ")" | .atom n => s!"a{n}" | .op k => s!"op:{k}" | .pre k => s!"pre:{k}" | .suf k => s!"suf:{k}"
+
+def runExprPrint (c : Json) : Option Json := do
+  let e ← (c.getObjVal? "expr").toOption >>= peOfJson?
+  -- the outermost expression is not an operand: the model's `print` of an operand is what appears inside the parentheses
+  pure (Json.arr ((Print.print e).map (fun t => Json.str (tokStr t))).toArray)
 
 def labelOfStr? : String → Option Label
   | "priv" => some .priv | "sd" => some .sd | "pup" => some .pup | "dp" => some .dp | "pubd" => some .pubd | "pub" => some .pub
@@ -834,6 +854,7 @@ def handle (line : String) : Json :=
       | "dpevent" => runDpEvent c
       | "hierops" => runHierOps c
       | "injtime" => runInjTime c
+      | "exprprint" => runExprPrint c
       | "dpquery" => runDpQuery ((j.getObjVal? "aux").toOption.getD Json.null)
       | "rules" => runRules ((j.getObjVal? "aux").toOption.getD Json.null)
       | _ => none
